@@ -54,6 +54,7 @@ NATIVE_VARIANTS = {
     'gxx-O0-san': ['g++', '-O0', '-g', '-fsanitize=address,undefined', '-fno-sanitize-recover=undefined', '-fno-omit-frame-pointer'],
     'gxx-O2': ['g++', '-O2'],
     'clang-O1': ['clang++-14', '-O1'],
+    'clang-O1-san': ['clang++-14', '-O1', '-g', '-fsanitize=address,undefined', '-fno-sanitize-recover=undefined'],
     'clang-O0-san': ['clang++-14', '-O0', '-g', '-fsanitize=address,undefined', '-fno-sanitize-recover=undefined'],
 }
 
@@ -63,7 +64,7 @@ def start_native_builds(run, work, variants):
     src = os.path.join(VERIF, 'harness', run.harness)
     for v in variants:
         out = os.path.join(work, '%s.%s.bin' % (run.name, v))
-        cmd = NATIVE_VARIANTS[v] + ['-std=' + run.std, '-w', '-I' + REPO + '/include', '-DEVENTPP_VERIF', '-DVF_NATIVE'] + defs(run.defines) + \
+        cmd = NATIVE_VARIANTS[v] + (['-fgnuc-version=10.0.0', '-D_GLIBCXX_TSAN=1'] if v.startswith('clang') else []) + ['-std=' + run.std, '-w', '-I' + REPO + '/include', '-DEVENTPP_VERIF', '-DVF_NATIVE'] + defs(run.defines) + \
             (['-DVF_NO_NEW_REPLACEMENT'] if run.own_new else []) + [src, os.path.join(VERIF, 'runtime', 'vf_native.cpp'), '-o', out, '-lpthread']
         procs[v] = (subprocess.Popen(cmd, stdout=subprocess.PIPE, stderr=subprocess.PIPE, text=True), out, cmd)
     return procs
